@@ -33,7 +33,7 @@ func TestRacePass(t *testing.T) {
 		go func(g int) {
 			defer wg.Done()
 			for i := 0; i < 200; i++ {
-				name := []string{"n1.example", "n2.example", "n3.example", "n4.example", "n5.example"}[(g+i)%5]
+				name := []string{"n1.example", "n2.example", "n3.example", "n4.example", "n5.example", "n6.example"}[(g+i)%6]
 				r, err := res.Resolve(context.Background(), name)
 				if err != nil {
 					continue
